@@ -513,8 +513,8 @@ func c07Fields(fs []hpackref.Field) string {
 // ---- generators ------------------------------------------------------------------------
 
 var (
-	c07GoodNames  = []string{"a", "x-h1", "content-type", "cookie", "accept", "user-agent", "x-verif-long-header-name", "te", "priority", "z9_!#$%&'*+-.^`|~"}
-	c07BadNames   = []string{"", "Upper", "sp ace", "nul\x00", "caf\xc3\xa9", "a:b", "x\x7f", "(paren)", "tab\t", "UPPER-CASE", "\xff",
+	c07GoodNames = []string{"a", "x-h1", "content-type", "cookie", "accept", "user-agent", "x-verif-long-header-name", "te", "priority", "z9_!#$%&'*+-.^`|~"}
+	c07BadNames  = []string{"", "Upper", "sp ace", "nul\x00", "caf\xc3\xa9", "a:b", "x\x7f", "(paren)", "tab\t", "UPPER-CASE", "\xff",
 		// valid UTF-8 above U+00FF whose code point has the low octet of a token character
 		// (U+0161 ..61 'a', U+4E61 ..61, U+1F431 ..31 '1', U+0141 ..41, U+2D2D ..2d '-', U+017E ..7e '~')
 		"x-\u0161", "\u4e61bc", "x-\U0001f431", "\u0141", "a\u2d2db", "t\u017e"}
